@@ -1,7 +1,9 @@
 (* C01 -- tree round-trip: every node comes back at its path with its class.  Statements only.
-   PARTIAL: the writer half is proved (what is in the file, for every tree); the reader half
-   (populate / read on the encoded file) is tied by the correspondence check and the oracle only. *)
-From Emd Require Import Base.Prelude Model.H5 Model.Emd Generated.Tables Proofs.PTree.
+   Both halves are proved for every tree: what the writer puts in the file (write_tree = enc), and what the reader
+   makes of that file (populate o enc = canon): the same tree, every node with its class, name, payload and metadata,
+   children and metadata listed in name order (h5py's link order).  Payloads are content tokens here; the per-class
+   codecs are C02-C04. *)
+From Emd Require Import Base.Prelude Model.H5 Model.Emd Model.Reader Generated.Tables Proofs.PTree Proofs.PRead.
 
 (* ok_tree: sibling names pairwise distinct and distinct from the datasets / bundle their parent writes
    (the latter is the documented format limitation F18). *)
@@ -34,9 +36,39 @@ Theorem C01_group_links_are_own_content_and_children :
 Proof. exact enc_links. Qed.
 Print Assumptions C01_group_links_are_own_content_and_children.
 
+(* ---------- reader half.
+   canon t = t with, at every node, children sorted by name, metadata sorted by key, and the payload fields a class does
+   not have set to 0 (a Node has no data token, only Arrays have a rank).  rd_tree: no node below the top is a Root or
+   is called "metadatabundle" (Node.to_h5 refuses that name).  ret_of: read(path) hands back the root, or its only
+   child, or its only Metadata. *)
+Theorem C01_save_then_read_returns_the_tree :
+  forall c root, rcls root = CRoot -> ok_tree root -> rd_tree root -> rname root <> "" -> no_slash (rname root) = true ->
+    exists f, fresh_file c root [] (Some true) = Ok f /\
+              read (H5 f) None (Some true) = Ok (RTree (canon root) (ret_of (canon root))) /\
+              read (H5 f) None None = Ok (RTree (canon root) RetRoot).
+Proof. exact save_then_read. Qed.
+Print Assumptions C01_save_then_read_returns_the_tree.
+
+(* ... in which every node of the saved tree sits at the same path, and nothing else does *)
+Theorem C01_every_node_comes_back_at_its_path :
+  forall root, ok_tree root -> forall p, rwalk (canon root) p = option_map canon (rwalk root p).
+Proof. exact rwalk_canon. Qed.
+Print Assumptions C01_every_node_comes_back_at_its_path.
+
+(* ... as an instance of the same class, under the same name, with the payload its class stores and all its metadata *)
+Theorem C01_a_node_read_back_has_its_class_name_payload_and_metadata :
+  forall k, rcls (canon k) = rcls k /\ rname (canon k) = rname k /\
+            rtok (canon k) = ptok (rcls k) (rtok k) /\ rrank (canon k) = prank (rcls k) (rrank k) /\
+            rmds (canon k) = ksort (rmds k) /\ map rname (rkids (canon k)) = map rname (rsort (rkids k)).
+Proof. exact canon_fields. Qed.
+Print Assumptions C01_a_node_read_back_has_its_class_name_payload_and_metadata.
+
 (* non-vacuity *)
 Definition ex_tree : rnode :=
   RN CRoot "r" 0%Z 0 [("m1", 5%Z)] [ RN CArray "a b" 7%Z 2 [] [ RN CPl "p" 8%Z 0 [] [] ]; RN CNode "n" 0%Z 0 [("m", 9%Z)] [] ].
+Example C01_reader_hypotheses_satisfiable : rd_tree ex_tree /\ rname ex_tree <> "" /\ no_slash (rname ex_tree) = true /\
+  canon ex_tree = RN CRoot "r" 0%Z 0 [("m1", 5%Z)] [ RN CArray "a b" 7%Z 2 [] [ RN CPl "p" 8%Z 0 [] [] ]; RN CNode "n" 0%Z 0 [("m", 9%Z)] [] ].
+Proof. split; [cbn; repeat split; discriminate|]. split; [discriminate|]. split; reflexivity. Qed.
 Example C01_hypotheses_satisfiable : rcls ex_tree = CRoot /\ ok_tree ex_tree /\ rwalk ex_tree ["a b"; "p"] = Some (RN CPl "p" 8%Z 0 [] []).
 Proof.
   split; [reflexivity|]. split; [|reflexivity].
